@@ -2625,7 +2625,10 @@ class CondTr(Generic[X, R], Trace[X, R]):
         return merged
 
     def get_args(self) -> Any:
-        return (self.check, *self.trs[0].get_args())
+        # Same (args, kwargs) storage format as Tr / ScanTr: the branch traces record the
+        # arguments after the condition, so the Cond's own arguments are (check, *rest).
+        rest_args, kwargs = self.trs[0].get_args()
+        return ((self.check, *rest_args), kwargs)
 
     def get_retval(self) -> R:
         return jnp.where(self.check, *map(get_retval, self.trs))
